@@ -50,6 +50,7 @@ parameters, ...) is not defined by the manual; the generator of the check does
 not produce it and the model raises ModelError if it meets something it
 cannot decide.
 """
+import posixpath
 import re
 
 
@@ -129,7 +130,7 @@ def split_args(s):
 # ---------------------------------------------------------------------------
 # textual substitution
 
-def substitute(line, names, values, case_sensitive, implicit=None):
+def substitute(line, names, values, case_sensitive, implicit=None, hits=None):
     """Replace every whole occurrence of a parameter name, simultaneously.
 
     names: list of parameter names; values: list of texts (same length).
@@ -160,6 +161,8 @@ def substitute(line, names, values, case_sensitive, implicit=None):
                 L = len(name)
                 if i + 1 + L < n and line[i + 1 + L] == '\\' and eq(line[i + 1:i + 1 + L], name, cs):
                     out.append(val)
+                    if hits is not None:
+                        hits.add(name)
                     i += L + 2
                     done = True
                     break
@@ -173,6 +176,8 @@ def substitute(line, names, values, case_sensitive, implicit=None):
             for name, val, cs in cands:
                 if len(name) == len(word) and eq(word, name, cs):
                     out.append(val)
+                    if hits is not None:
+                        hits.add(name)
                     done = True
                     break
             if not done:
@@ -342,6 +347,9 @@ class Expander:
         self.depth = 0
         self.stats = {}
         self.events = []              # (kind, detail) for evidence
+        self.dirs = ['']               # directory of the file being read (INCLUDE/BINCLUDE look there first)
+        self.param_numbers = set()    # numbers of macro parameters that were substituted at least once
+        self.implicit_used = set()
 
     # -- helpers
     def key(self, name):
@@ -351,6 +359,9 @@ class Expander:
         self.stats[k] = self.stats.get(k, 0) + n
 
     def emit(self, text, scope):
+        if len(text) > 250:
+            # "The lines must not be longer than 255 characters, additional characters are discarded"
+            raise ModelError('expanded line longer than 250 characters')
         self.out.append([text, scope])
         if len(self.out) > self.max_lines:
             raise ModelError('expansion exceeds %d lines' % self.max_lines)
@@ -663,7 +674,13 @@ class Expander:
             undecided = [k for k, v in imp.items() if v is None]
             for k in undecided:
                 imp[k] = '\0UNDEF\0'
-            r = substitute(line, names, vals, cs, imp)
+            hits = set()
+            r = substitute(line, names, vals, cs, imp, hits)
+            for h in hits:
+                if h in names:
+                    self.param_numbers.add(names.index(h) + 1)
+                else:
+                    self.implicit_used.add(h)
             if '\0UNDEF\0' in r:
                 raise ModelError('ARGCOUNT/ALLARGS/shifted-out parameter used where the manual does not define its value')
             return r
@@ -832,10 +849,14 @@ class Expander:
         name = a[0]
         if len(name) >= 2 and name[0] == '"' and name[-1] == '"':
             name = name[1:-1]
-        if '.' not in name:
+        if '.' not in posixpath.basename(name):
             name = name + '.inc'
+        # "a path contained in the file specification is relative to this file's directory"
+        name = posixpath.normpath(posixpath.join(self.dirs[-1], name))
         if name not in self.files:
             raise ModelError('include file %r unknown' % name)
+        if posixpath.dirname(name):
+            self.count('include_from_subdirectory')
         self.count('include')
         self.events.append(('include', name))
         self.depth += 1
@@ -844,8 +865,10 @@ class Expander:
         try:
             # the text of the file is not read through the enclosing expansion:
             # parameters are replaced in the lines of the body, not in files
+            self.dirs.append(posixpath.dirname(name))
             self.run_lines(self.files[name].split('\n'), None, scope, labels=labels, top=(self.depth == 1))
         finally:
+            self.dirs.pop()
             self.depth -= 1
 
     def do_binclude(self, label, args, scope):
@@ -855,6 +878,7 @@ class Expander:
         name = a[0]
         if len(name) >= 2 and name[0] == '"' and name[-1] == '"':
             name = name[1:-1]
+        name = posixpath.normpath(posixpath.join(self.dirs[-1], name))
         if name not in self.bin:
             raise ModelError('binary file %r unknown' % name)
         data = self.bin[name]
